@@ -15,20 +15,26 @@ contract("monkeytype.util:get_name_in_module", props=["C10", "C08"], theories=TH
          note="assumes: importing a stored module either succeeds or raises ModuleNotFoundError; attribute access either succeeds or raises AttributeError; a caller-supplied attr_getter behaves like getattr")
 
 from contracts._texts import _FN_OF, _BAD
-def _not_a_function(m, q):
-    """The raise condition of get_func_in_module(m, q): the name cannot be looked up, is not (a wrapper of) a function, or is bound to a function of another name."""
+def _fn(m, q):
     o = "(unwrapped_(lookup_(%s, %s)))" % (m, q)
-    fn = _FN_OF.replace("(o)", o).replace(", o)", ", %s)" % o[1:-1])
-    return "not resolvable(%s, %s) or %s or qualname_or(%s, %s) is not %s" % (m, q, _BAD.replace("(o)", o), fn, q, q)
+    return _FN_OF.replace("(o)", o).replace(", o)", ", %s)" % o[1:-1]), o
+
+
+def _not_a_function(m, q):
+    """The raise condition of get_func_in_module(m, q): the name cannot be looked up or unwrapped, or what it is bound to is not the Python function (m, q) names."""
+    fn, o = _fn(m, q)
+    return ("not resolvable(%s, %s) or unwrap_loops(lookup_(%s, %s)) or %s or okind(%s) is not OK_function or func_qualname_(%s) is not %s or func_module_(%s) is not %s"
+            % (m, q, m, q, _BAD.replace("(o)", o), fn, fn, q, fn, m))
 
 
 contract("monkeytype.util:get_func_in_module", props=["C10", "C08"], theories=TH,
          params={"module": "str", "qualname": "str"}, result="Obj",
          lets={"o": "unwrapped_(lookup_(module, qualname))"},
-         # the function behind the name: the object itself, or the function a method / read-only property / cached_property wraps
+         # the Python function the name denotes: the object itself, or the function a method / read-only property / cached_property wraps -
+         # and only if that function was defined under exactly this module and qualified name (not a builtin, a generated or imported function, a wrapper without functools.wraps)
          ensures={"post:function": "result is " + _FN_OF, "post:resolvable": "resolvable(module, qualname)", "post:kind": "not (%s)" % _BAD,
-                  # the name is still bound to a function that calls itself by that name (not, say, to the wrapper of a decorator without functools.wraps)
-                  "post:own-name": "qualname_or(result, qualname) is qualname"},
+                  "post:python-function": "okind(result) is OK_function",
+                  "post:own-name": "func_qualname_(result) is qualname and func_module_(result) is module"},
          raises={"MonkeyTypeError": _not_a_function("module", "qualname")})
 
 _ENC = "exists_ty(lambda t: {g}wf_st(t) and encodes({d}, t) and reveal_enc({d}, t))"
